@@ -24,10 +24,44 @@ struct Helper {   // foreign thread that resumes suspend points after a delay
     ~Helper() { { std::lock_guard<std::mutex> l(m); stop = true; } cv.notify_one(); th.join(); }
 };
 
+// mode 5/6: the thread that could run the resume task is busy WAITING for the suspended task: task A suspends (resumed by a foreign thread
+// a little later), task B — taken by the same thread on the fresh stack, or by another thread of the arena — waits for A's group, plainly
+// (mode 5) or inside this_task_arena::isolate (mode 6: an isolated waiter must still take resume tasks, they carry no isolation tag).
+static void waiter_rounds(unsigned seed, int P, int n, bool isolated, Out& o) {
+    std::mt19937 r(seed);
+    long notonce = 0, early = 0, bnotdone = 0;
+    tbb::task_arena arena(P);
+    for (int round = 0; round < n; ++round) {
+        std::atomic<tbb::task::suspend_point> sp{nullptr}; std::atomic<bool> go{false}, resume_called{false};
+        std::atomic<int> continued{0}, before{0}, bfin{0};
+        unsigned delay_us = r() % 300;
+        std::thread foreign([&] { while (!go.load()) std::this_thread::yield(); tbb::task::suspend_point p = sp.load();
+                                  if (delay_us) std::this_thread::sleep_for(std::chrono::microseconds(delay_us)); resume_called = true; tbb::task::resume(p); });
+        arena.execute([&] {
+            tbb::task_group tgA, tgB;
+            tgB.run([&] {
+                auto wait_for_a = [&] { while (sp.load() == nullptr) std::this_thread::yield(); go = true; tgA.wait(); };
+                if (isolated) tbb::this_task_arena::isolate(wait_for_a); else wait_for_a();
+                ++bfin;
+            });
+            tgA.run([&] {
+                tbb::task::suspend([&](tbb::task::suspend_point p) { sp.store(p); });
+                if (!resume_called.load()) ++before;
+                ++continued;
+            });
+            tgB.wait(); tgA.wait();
+        });
+        foreign.join();
+        if (continued != 1) notonce++; if (before) early++; if (bfin != 1) bnotdone++;
+    }
+    o.word("NOTONCE"); o.put(notonce); o.word("TWICE"); o.put(0); o.word("EARLYWAIT"); o.put(early); o.word("TWOTHREADS"); o.put(bnotdone);
+}
+
 int main() {
     std::vector<i128> c; Out o; Watchdog wd(30.0);
     while (read_case(c)) {
         unsigned seed = (unsigned)c[0]; int P = (int)c[1]; int n = (int)c[2]; int mode = (int)c[3]; bool nested = c[4] != 0;
+        if (mode == 5 || mode == 6) { wd.arm(&o); waiter_rounds(seed, P, n, mode == 6, o); wd.disarm(); o.flush(); continue; }
         std::vector<std::atomic<int>> cont(2 * n); for (auto& x : cont) x = 0;
         std::atomic<long> early{0}, two_threads{0}, other_work{0};
         std::vector<std::atomic<int>> running(2 * n); for (auto& x : running) x = 0;
